@@ -922,10 +922,10 @@ class CSemantics:
 
             expr = expressions.UnaryOperator(op, a, a.typ, False, location)
         elif op == "-":
-            a = self.pointer(a)
+            a = self.promote(self.pointer(a))
             expr = expressions.UnaryOperator(op, a, a.typ, False, location)
         elif op == "~":
-            a = self.pointer(a)
+            a = self.promote(self.pointer(a))
             self.ensure_integer(a)
             expr = expressions.UnaryOperator(op, a, a.typ, False, location)
         elif op == "+":
